@@ -982,7 +982,7 @@ package server
 
 //@ func (*Aof).GetLockCommandExpriedTime
 //@   requires lockDb != nil && aofLock != nil
-//@   ensures C07.life.restore: implies(aofLock.CommandTime < 0x10000000000 && lockDb.currentTime >= 0 && lockDb.currentTime < 0x10000000000 && lockDb.currentTime - aofLock.CommandTime <= ite(aofLock.ExpriedFlag&0x0040 != 0, 0xffff * 60, 0xffff), result == restoredLife(aofLock.ExpriedFlag, aofLock.ExpriedTime, lockDb.currentTime - aofLock.CommandTime))
+//@   ensures C07.life.restore,C16.life.restore: implies(aofLock.CommandTime < 0x10000000000 && lockDb.currentTime >= 0 && lockDb.currentTime < 0x10000000000 && lockDb.currentTime - aofLock.CommandTime <= ite(aofLock.ExpriedFlag&0x0040 != 0, 0xffff * 60, 0xffff), result == restoredLife(aofLock.ExpriedFlag, aofLock.ExpriedTime, lockDb.currentTime - aofLock.CommandTime))
 //@   modifies nothing
 
 // the property-level statement over the two specifications: for a hold with deadline e persisted at t0 <= e
@@ -1028,4 +1028,30 @@ package server
 //@ func (*Aof).RewriteAofFile
 //@   modifies all
 //@ func (*ReplicationManager).PushLock
+//@   modifies all
+
+// =====================================================================================================
+// C16: compaction keeps a record iff the engine still has the hold with the terms the record describes,
+// never compacts the append file that is being written, and must have the compacted file in place under
+// its final name before it removes any input (known finding: it removes first).
+// =====================================================================================================
+//@ func (*Aof).findRewriteAofFiles
+//@   requires self != nil
+//@   at call append#2 assert C16.find.notcurrent: u32(aofFileIndex) != self.aofFileIndex && implies(u32(aofFileIndex) > self.aofFileIndex, u32(aofFileIndex) - self.aofFileIndex >= 0x7fffffff)
+//@   modifies all
+
+//@ func (*Aof).loadRewriteAofFiles$1
+//@   requires aofLock != nil
+//@   at call HasLock assert C16.rewrite.terms: arg1.CommandType == aofLock.CommandType && arg1.DbId == aofLock.DbId && arg1.LockId == aofLock.LockId && arg1.LockKey == aofLock.LockKey && arg1.ExpriedFlag == aofLock.ExpriedFlag && arg1.Count == aofLock.Count && arg1.Rcount == aofLock.Rcount && arg2 == aofLock.data
+//@   at call HasLock assert C16.rewrite.lifetime: implies(aofLock.CommandTime < 0x10000000000 && db.currentTime >= 0 && db.currentTime < 0x10000000000 && db.currentTime - aofLock.CommandTime <= ite(aofLock.ExpriedFlag&0x0040 != 0, 0xffff * 60, 0xffff), arg1.Expried == restoredLife(aofLock.ExpriedFlag, aofLock.ExpriedTime, db.currentTime - aofLock.CommandTime))
+//@   at call AppendLock assert C16.rewrite.kept: calls(HasLock) == 1 && arg1 == aofLock
+//@   at call WriteLockData assert C16.rewrite.value: calls(AppendLock) == 1 && arg1 == aofLock && aofLock.AofFlag&0x2000 != 0
+//@   modifies all
+
+//@ func (*Aof).clearRewriteAofFiles
+//@   requires self != nil
+//@   at call Remove assert C16.crash.rename-first: calls(Rename) == 2
+//@   modifies all
+// the engine's answer is taken as given by the compaction (its own correctness is the subject of C01/C02/C06)
+//@ func (*LockDB).HasLock
 //@   modifies all
